@@ -14,6 +14,8 @@ def run(ctx):
     R.flw15_flush_trigger(ctx)
     D.lit3_wal_file_names(ctx)
     U.flw17_segment_id_units(ctx)
+    D.flw19_log_size_accounted(ctx)
+    L.cnd2_every_wakeup_condition_notifies(ctx)
     return ctx.finish(
         'Static analysis of compiler MIR: the flush resets the accounted log size to 0 and '
         'notifies under the ingestion lock; every file of a merged-away partition and the frozen '
